@@ -193,6 +193,7 @@ class Runner:
         self.known_matcher = _known_matcher()
         self.fp_timeout_ms = 600000
         self.inline = True
+        self.last_known_id = None
         self.res = res
         self.plain = plain
         self.func = func
@@ -287,9 +288,10 @@ class Runner:
                     sym_inputs = (out or {}).get('inputs', {})
                     model = ob.model
                     blocks = []
-                    for attempt in range(60):
+                    for attempt in range(800):
                         ins = {k: conc(model, v) for k, v in sym_inputs.items()}
-                        verdict = self._counterexample(job_label, ob.label, ins, str(ob.info or ''), quiet=(eng.float_mode == 'R'))
+                        verdict = self._counterexample(job_label, ob.label, ins, '' if isinstance(ob.info, dict) else str(ob.info or ''),
+                                                       quiet=(eng.float_mode == 'R' or getattr(eng, 'overapprox_used', False) or getattr(eng, 'exact_floats', False)))
                         if verdict in ('violation', 'inconclusive'):
                             break
                         if verdict == 'spurious':
@@ -300,7 +302,15 @@ class Runner:
                                 break
                         # a recorded known finding: exclude exactly this input and ask again, so that any other
                         # violation of the same clause on this path is still found
-                        b = block_inputs(sym_inputs, model)
+                        b = None
+                        if verdict == 'known' and isinstance(ob.info, dict) and self.last_known_id in ob.info.get('known_class', {}):
+                            # the harness supplied the recorded class as a symbolic predicate: exclude the whole class at once
+                            b = z3.Not(ob.info['known_class'][self.last_known_id])
+                            if any(b.eq(x) for x in blocks):
+                                res.inconclusive.append('%s: a counterexample of %s matches known finding %s but lies outside its symbolic class' % (job_label, ob.label, self.last_known_id))
+                                break
+                        if b is None:
+                            b = block_inputs(sym_inputs, model)
                         if b is None:
                             res.inconclusive.append('%s: cannot exclude the known counterexample of %s' % (job_label, ob.label))
                             break
@@ -315,12 +325,45 @@ class Runner:
                             res.inconclusive.append('%s: obligation %s after excluding a known finding: solver %s' % (job_label, ob.label, r))
                             break
                     else:
-                        res.inconclusive.append('%s: more than 60 known-finding counterexamples for %s on one path' % (job_label, ob.label))
+                        res.inconclusive.append('%s: more than 800 known-finding counterexamples for %s on one path' % (job_label, ob.label))
                 else:
                     res.inconclusive.append('%s: obligation %s: solver %s' % (job_label, ob.label, ob.status))
             for (label, detail) in fails:
                 res.obligations += 1
-                self._counterexample(job_label, label, inputs, detail)
+                approx = eng.float_mode == 'R' or getattr(eng, 'overapprox_used', False) or getattr(eng, 'exact_floats', False)
+                verdict = self._counterexample(job_label, label, inputs, detail, quiet=approx)
+                if verdict == 'spurious':
+                    # a path-level failure whose witness does not reproduce under a float abstraction: try the other witnesses of the path
+                    sym_inputs = (out or {}).get('inputs', {})
+                    blocks = []
+                    mdl = m
+                    for attempt in range(24):
+                        b = block_inputs(sym_inputs, mdl)
+                        if b is None:
+                            res.inconclusive.append('%s: %s did not reproduce and the path has no symbolic input to vary' % (job_label, label))
+                            break
+                        blocks.append(b)
+                        eng.solver.push()
+                        try:
+                            for x in blocks:
+                                eng.solver.add(x)
+                            r = eng._check()
+                            mdl = eng.last_model
+                        finally:
+                            eng.solver.pop()
+                        if r == 'unsat':
+                            res.discharged += 1
+                            res.extra['paths_spurious_under_float_abstraction'] = res.extra.get('paths_spurious_under_float_abstraction', 0) + 1
+                            break
+                        if r != 'sat':
+                            res.inconclusive.append('%s: %s: solver %s while looking for a reproducing witness' % (job_label, label, r))
+                            break
+                        ins2 = {k: conc(mdl, v) for k, v in sym_inputs.items()}
+                        v2 = self._counterexample(job_label, label, ins2, detail, quiet=True)
+                        if v2 != 'spurious':
+                            break
+                    else:
+                        res.inconclusive.append('%s: 24 witnesses of a failing path for %s did not reproduce (float abstraction too coarse)' % (job_label, label))
             if self.sample_budget > 0 and out:
                 self.sample_budget -= 1
                 res.samples.append({'job': job_label, 'path_decisions': len(p.decisions),
@@ -398,7 +441,9 @@ class Runner:
                    'expected': detail or 'property clause %s' % label, 'observed': out.strip()[-300:],
                    'script': script, 'model': {k: repr(v) for k, v in inputs.items()}, 'job': job_label}
             self.res.records.append(rec)
-            if self.known_matcher is not None and self.known_matcher(rec) is not None:
+            km = self.known_matcher(rec) if self.known_matcher is not None else None
+            if km is not None:
+                self.last_known_id = km['id']
                 return 'known'
             return 'violation'
         else:
